@@ -261,3 +261,37 @@ func ZZ_C13_HeaderAgrees() {
 		zzverif.Assert(err3 == nil && n3 == n, "prefixed-decoder")
 	}
 }
+
+// ZZ_C13_TwoFields: a small-form message with a concrete header over D symbolic data bytes and two
+// symbolic table entries (any tags; offsets ascending, equal, descending or out of range, i.e. also
+// fields written out of tag order). Whatever the recursive parser accepts, each of the two fields it
+// lists must itself re-parse, open and probe with the same size. The concrete header buys three more
+// bytes of data than the fully symbolic ZZ_C13_Reread reaches (added after seed C13-r4m2, whose smallest
+// witness is a 12-byte message; the fully symbolic kernels stop at 9).
+func ZZ_C13_TwoFields() {
+	d := zzverif.Param("D")
+	data := zzverif.Bytes(d)
+	tab := zzverif.Bytes(2 * format.MessageFieldSize_Small)
+	b := make([]byte, d+9)
+	copy(b, data)
+	copy(b[d:], tab)
+	b[d+6] = byte(d)
+	b[d+7] = 2 * format.MessageFieldSize_Small
+	b[d+8] = byte(format.TypeMessage)
+
+	m, n, err := ParseMessage(b)
+	zzverif.Assume(err == nil)
+	zzverif.Assert(n == len(b), "two-fields-size")
+	zzverif.Assert(m.Fields() == 2, "two-fields-count")
+	i := zzverif.Param("I")
+	raw := m.fieldAt(i)
+	if len(raw) != 0 {
+		zzverif.Reach("field")
+		_, _, err := ParseValue(raw)
+		zzverif.Assert(err == nil, "field-reparse")
+		v := m.FieldAt(i)
+		zzverif.Assert(len(v) != 0, "fieldat-open")
+		_, n2, err2 := decode.DecodeTypeSize(raw)
+		zzverif.Assert(err2 == nil && n2 == len(v), "field-probe")
+	}
+}
